@@ -56,6 +56,12 @@ THEOREMS = [
     'Nb.C03.ecat_frames_orig_reversed_counterexample',
     'Nb.C03.ecat_frame_order_sorted',
     'Nb.C03.ecat_frames_by_row',
+    'Nb.C03.ecat_frame_order_from_source',
+    'Nb.C03.getitem_eq_index_of_array_heuristic',
+    'Nb.C03.hist_reads_independent',
+    'Nb.C03.hist_generic_eq_numpy',
+    'Nb.C03.hist_ecat_eq_numpy',
+    'Nb.C03.hist_cache_counterexample',
 ]
 ASSUMPTIONS = [
     'hand-written Lean model of the proxy logic (Model/C03.lean on top of Model/C06.lean), tied to the code by the '
@@ -64,8 +70,12 @@ ASSUMPTIONS = [
     'promotion (apply_read_scaling, raw*slope+inter, out*=slope; out+=inter) are external; the oracle checks them '
     'against the two-step IEEE evaluation with NumPy itself',
     'getitem_eq_index_of_array_default/_total and parrec_unscaled_eq rest on the C06 theorem '
-    'Nb.C06.fileslice_threshold_eq_numpy (Props/C06.lean, imported); getitem_eq_index_of_array keeps the general '
-    'heuristic with "fileslice = npIndex" as hypothesis',
+    'Nb.C06.fileslice_threshold_eq_numpy, getitem_eq_index_of_array_heuristic on Nb.C06.fileslice_eq_numpy (Props/C06.lean, '
+    'imported): every heuristic that never answers "contiguous" for an integer index (optimize_slicer raises otherwise)',
+    'histories: array objects handed to the caller are modelled as heap cells (Model/C03_Hist.lean: a fresh cell per read, '
+    'the proxy keeps no reference); that Python/NumPy object identity and in-place edits behave like that is the '
+    'modelling assumption, tied by the hist streams (every returned object retained, edited in place, re-compared after '
+    'the proxy is released); what an in-place edit does to the edited array itself is not modelled (printed as "-")',
     'NumPy basic indexing (Nb.C06.npIndex / NdArr.index), Python slices (Basic/PySlice) and NumPy slice assignment '
     '(setAxis) are specifications, validated here through the correspondence run',
     'netCDF / HDF5 readers (nibabel.externals.netcdf, h5py), gzip/bz2/zstd, indexed_gzip, mmap are external',
@@ -74,8 +84,12 @@ ASSUMPTIONS = [
     'structurally) and proved equal to the model guard; which REC slices make up the image (get_sorted_slice_indices, '
     'truncation, strict/lax sorting) is property C20 - here the index vector is computed by the harness from an '
     'independent statement of the rule and the proxy is proved/checked for ARBITRARY index vectors',
-    'ECAT: get_frame_order is modelled on the id column (insertion sort = argsort on distinct ids); reading the matrix '
-    'list and sub-headers from the file is external (harness writes them itself)',
+    'ECAT: get_frame_order is modelled on the id column; the id column, validity test, replacement of invalid ids, n_valid '
+    'cut and the frame_mapping field used by the three data_from_fileobj call sites are REGENERATED from the working tree '
+    '(Generated/C03Ecat.lean, theorem ecat_frame_order_from_source); np.argsort is modelled as a stable insertion sort - '
+    'NumPy\'s default sort is not stable, so the frame order of a directory with DUPLICATE valid ids is unspecified by '
+    'the code itself and outside model and generator (equal replaced invalid ids are cut off by n_valid); reading the '
+    'matrix list and sub-headers from the file is external (harness writes them itself)',
     'frozen_reads: header objects live on a modelled heap, the proxy holds a reference and copies; that Python object '
     'identity behaves like heap cells is the modelling assumption, tied by the frozen-read stream (edits of the very '
     'header object the proxy was built from, and of the loaded image header, between two reads)',
@@ -94,6 +108,12 @@ RULE = ('one stream per proxy implementation (NIfTI-1 single/pair, NIfTI-2, Anal
         'ascending id order x integer frame index x new axes; element numbers are FILE rows and every element carries the '
         'sub-header row whose scale factor it was multiplied with. AFNI: >= 2 sub-bricks with non-zero factors x new axes '
         'after the sub-brick axis. frozen-read: header object edited (shape, dtype, offset, slope/inter) between two reads. '
+        'ECAT additionally: directory entries with invalid ids (0, negative) between the valid ones, matrix-list array longer '
+        'than the directory (num_frames larger than the rows written). HISTORIES (hist:<class> streams, every proxy class, '
+        '(build, configuration) pairs drawn by the other streams\' generators, optional reshape() first): 3-10 steps on ONE '
+        'proxy object - np.asarray(proxy), np.asarray(proxy, dtype=float64), proxy[idx] incl. refused indices, in-place '
+        'edits (fill / scale / invert) of ANY array an earlier read returned; half of them start convert -> edit -> read; '
+        'every read compared, all returned objects retained and re-compared after the proxy is released. '
         'Non-trivial = index is not all-full-slices; distinct by (format, build, config, index, header ops).')
 
 # ------------------------------------------------------------------ regenerated from the working tree
@@ -208,6 +228,111 @@ def parrec_fast_path_source():
     return el.test, ast.unparse(el.test), call.args[4].value, call.args[5].value
 
 
+GEN_ECAT = os.path.join(os.path.dirname(GEN_PARREC), 'C03Ecat.lean')
+
+
+def ecat_frame_order_source():
+    """Generated/C03Ecat.lean from `get_frame_order` and its two call sites in `EcatImageArrayProxy` (working tree):
+    which column holds the matrix id, which ids count as valid, what invalid ids are replaced with, and which field of
+    a `frame_mapping` entry is handed to `data_from_fileobj`.  The statement structure is checked on the way."""
+    import ast
+    src = open(os.path.join(REPO, 'nibabel', 'ecat.py')).read()
+    tree = ast.parse(src)
+    fn = [n for n in tree.body if isinstance(n, ast.FunctionDef) and n.name == 'get_frame_order'][0]
+    body = [st for st in fn.body if not (isinstance(st, ast.Expr) and isinstance(st.value, ast.Constant))]
+    if len(body) != 8:
+        raise Untranslatable('get_frame_order: expected 8 statements, found %d' % len(body))
+    u = [ast.unparse(st) for st in body]
+    cmpops = {'Gt': '>', 'GtE': '>=', 'Lt': '<', 'LtE': '<=', 'Eq': '==', 'NotEq': '!='}
+
+    def int_const(n):
+        if isinstance(n, ast.Constant) and type(n.value) is int:
+            return n.value
+        if isinstance(n, ast.UnaryOp) and isinstance(n.op, ast.USub) and isinstance(n.operand, ast.Constant) \
+                and type(n.operand.value) is int:
+            return -n.operand.value
+        raise Untranslatable(ast.dump(n))
+
+    def ids_cmp(n):
+        if not (isinstance(n, ast.Compare) and len(n.ops) == 1 and ast.unparse(n.left) == 'ids'
+                and type(n.ops[0]).__name__ in cmpops):
+            raise Untranslatable(ast.unparse(n))
+        return cmpops[type(n.ops[0]).__name__], int_const(n.comparators[0])
+    # ids = mlist[:, COL].copy()
+    st = body[0]
+    if not (isinstance(st, ast.Assign) and ast.unparse(st.targets[0]) == 'ids' and isinstance(st.value, ast.Call)
+            and ast.unparse(st.value.func).startswith('mlist[:, ') and ast.unparse(st.value.func).endswith('].copy')
+            and not st.value.args):
+        raise Untranslatable(u[0])
+    col = int_const(st.value.func.value.slice.elts[1])
+    # n_valid = np.sum(ids > 0)
+    st = body[1]
+    if not (isinstance(st, ast.Assign) and ast.unparse(st.targets[0]) == 'n_valid' and isinstance(st.value, ast.Call)
+            and ast.unparse(st.value.func) == 'np.sum' and len(st.value.args) == 1 and not st.value.keywords):
+        raise Untranslatable(u[1])
+    vop, vc = ids_cmp(st.value.args[0])
+    # ids[ids <= 0] = ids.max() + 1
+    st = body[2]
+    if not (isinstance(st, ast.Assign) and isinstance(st.targets[0], ast.Subscript)
+            and ast.unparse(st.targets[0].value) == 'ids' and isinstance(st.value, ast.BinOp)
+            and isinstance(st.value.op, (ast.Add, ast.Sub)) and ast.unparse(st.value.left) == 'ids.max()'):
+        raise Untranslatable(u[2])
+    iop, ic = ids_cmp(st.targets[0].slice)
+    inc = int_const(st.value.right) * (1 if isinstance(st.value.op, ast.Add) else -1)
+    if u[3] != 'valid_order = np.argsort(ids)':
+        raise Untranslatable(u[3])
+    st = body[4]
+    if not (isinstance(st, ast.If) and not st.orelse and len(st.body) == 1 and isinstance(st.body[0], ast.Expr)
+            and ast.unparse(st.body[0].value.func) == 'warnings.warn_explicit'):
+        raise Untranslatable(u[4])
+    if u[5] != 'id_dict = {}' or u[7] != 'return id_dict' or \
+            u[6] != 'for i in range(n_valid):\n    id_dict[i] = [valid_order[i], ids[valid_order[i]]]':
+        raise Untranslatable('loop / return: ' + u[6])
+    # call sites: data_from_fileobj(frame_mapping[<frame>][FIELD]) in __array__ and __getitem__
+    cls = [n for n in tree.body if isinstance(n, ast.ClassDef) and n.name == 'EcatImageArrayProxy'][0]
+    fields, keys = [], []
+    for meth in cls.body:
+        if isinstance(meth, ast.FunctionDef) and meth.name in ('__array__', '__getitem__'):
+            if 'frame_mapping = get_frame_order(self._subheader._mlist)' not in \
+                    [ast.unparse(x) for x in ast.walk(meth) if isinstance(x, ast.Assign)]:
+                raise Untranslatable(meth.name + ': frame_mapping is not get_frame_order(self._subheader._mlist)')
+            for n in ast.walk(meth):
+                if isinstance(n, ast.Call) and ast.unparse(n.func).endswith('data_from_fileobj'):
+                    a = n.args[0] if len(n.args) == 1 and not n.keywords else None
+                    if not (isinstance(a, ast.Subscript) and isinstance(a.value, ast.Subscript)
+                            and ast.unparse(a.value.value) == 'frame_mapping'):
+                        raise Untranslatable(meth.name + ': ' + ast.unparse(n))
+                    fields.append(int_const(a.slice))
+                    keys.append((meth.name, ast.unparse(a.value.slice)))
+    if sorted(keys) != [('__array__', 'i'), ('__getitem__', 'i'), ('__getitem__', 'slice3')]:
+        raise Untranslatable('data_from_fileobj call sites: %r' % (keys,))
+    if len(set(fields)) != 1:
+        raise Untranslatable('data_from_fileobj call sites use different fields of the frame_mapping entry: %r' % fields)
+    return f"""import NibabelModel.Model.C03
+/-! GENERATED by harness/props/c03.py regen() from the working tree of nibabel (nibabel/ecat.py, `get_frame_order` and
+    the `data_from_fileobj(frame_mapping[…][…])` calls of `EcatImageArrayProxy`). Do not edit: rewritten on every run of
+    `./check C03`. Core Lean only. -/
+namespace Nb.Gen.C03
+open Nb Nb.C03
+
+/-- `ids = mlist[:, {col}].copy()` -/
+def ecatIdColumn : Nat := {col}
+
+/-- `n_valid = np.sum(ids {vop} {vc})` -/
+def ecatNValid (ids : List Int) : Nat := (ids.filter (fun v => decide (v {vop} ({vc} : Int)))).length
+
+/-- `ids[ids {iop} {ic}] = ids.max() + {inc}` -/
+def ecatEffIds (ids : List Int) : List Int :=
+  let mx := ids.foldl max (ids.headD 0)
+  ids.map (fun v => if v {iop} ({ic} : Int) then mx + ({inc} : Int) else v)
+
+/-- `id_dict[i] = [valid_order[i], ids[valid_order[i]]]`; all three call sites pass `frame_mapping[…][{fields[0]}]` -/
+def ecatRowField : Nat := {fields[0]}
+
+end Nb.Gen.C03
+"""
+
+
 def regen():
     """Generated/C03Parrec.lean: the fast-path guard of `PARRECArrayProxy._get_unscaled` translated from the working
     tree + the offset/order constants of its `fileslice` call (theorem `Nb.C03.parrec_guard_from_source`)."""
@@ -234,7 +359,9 @@ def parrecFastOrder : Nb.C06.Order := .{order}
 end Nb.Gen.C03
 """
     write_if_changed(GEN_PARREC, out)
-    return ['Generated.C03Parrec.parrecFallback', 'Generated.C03Parrec.parrecFastOffset/Order']
+    write_if_changed(GEN_ECAT, ecat_frame_order_source())
+    return ['Generated.C03Parrec.parrecFallback', 'Generated.C03Parrec.parrecFastOffset/Order',
+            'Generated.C03Ecat.ecatNValid/ecatEffIds/ecatIdColumn/ecatRowField']
 
 
 PENDING_FINDINGS = [
@@ -368,6 +495,8 @@ class Built:
         self.files = files
         self.lut = {}
         self.ambiguous = False
+        self.alts = alts
+        self._lut64 = None
         # alts: list of (slot, array like full decoded as if every element used that slot)
         for slot, arr in alts:
             a = np.ascontiguousarray(arr.astype(arr.dtype.newbyteorder('='), copy=False))
@@ -379,6 +508,21 @@ class Built:
                 val = (int(qs[k]), slot)
                 if self.lut.setdefault(key, val) != val:
                     self.ambiguous = True
+
+
+def lut64(bt):
+    """look-up table for results converted to float64 (`np.asarray(proxy, dtype=np.float64)`); only used where the
+    conversion is exact (integer or float64 decode)"""
+    if bt._lut64 is None:
+        lut = {}
+        qs = np.ascontiguousarray(bt.qarr).ravel()
+        for slot, arr in bt.alts:
+            a = np.ascontiguousarray(np.asarray(arr).astype(np.float64))
+            buf = a.tobytes()
+            for k in range(a.size):
+                lut.setdefault(('<f8', buf[k * 8:(k + 1) * 8]), (int(qs[k]), slot))
+        bt._lut64 = lut
+    return bt._lut64
 
 
 def bits_key(arr):
@@ -801,7 +945,7 @@ def build_ecat(b):
     with open(os.path.join(REPO, 'nibabel', 'tests', 'data', 'tinypet.v'), 'rb') as f:
         template = f.read()
     hdr = ecat.EcatHeader(template[:BLOCK], endianness='>')
-    hdr['num_frames'] = nfr
+    hdr['num_frames'] = nfr + len(b.get('holes') or []) + b.get('padrows', 0)   # rows of the matrix list array nibabel allocates
     calib = b.get('calib', 2.0)
     hdr['ecat_calibration_factor'] = calib
     hdr['patient_orientation'] = b.get('orient', 1)
@@ -810,33 +954,47 @@ def build_ecat(b):
     x, y, z = shape3
     V = x * y * z
     nblk = -(-(V * 2) // BLOCK)
-    perm = list(b.get('perm') or range(nfr))          # perm[row] = frame number stored in mlist row `row`
+    perm = list(b.get('perm') or range(nfr))          # perm[k] = frame number stored in the k-th VALID mlist row
+    # 'holes': positions (in the final row list) of directory entries with an INVALID matrix id (<= 0; get_frame_order:
+    # "put invalid frames at end after sort") that still point at a sub-header + data blocks (junk)
+    holes = sorted(b.get('holes') or [])
+    R = nfr + len(holes)
+    itp = iter(perm)
+    layout = [None if r in holes else next(itp) for r in range(R)]
     mlist = np.zeros((32, 4), dtype='>i4')
-    mlist[0] = (31 - nfr, 2, 0, nfr)
+    mlist[0] = (31 - R, 2, 0, R)
     blk = 3
     out = bytearray(hdr.binaryblock) + bytes(BLOCK)
     allraw = distinct_raw(rng, V * nfr, np.dtype('>i2')).astype('>i2').reshape((nfr,) + shape3)
-    scales = {}
-    for row in range(nfr):
-        fno = perm[row]
-        mlist[row + 1] = (16842752 + fno + 1, blk, blk + nblk, 1)
+    scales, scale_by_row = {}, {}
+    for row in range(R):
+        fno = layout[row]
         sh = subhdr0.copy()
         sh['x_dimension'], sh['y_dimension'], sh['z_dimension'] = x, y, z
         sh['data_type'] = 6
-        sc = np.float32(0.5 * (fno + 1) + 0.015625 * fno * fno)
-        sh['scale_factor'] = sc
-        scales[fno] = float(sc)
-        out += sh.tobytes().ljust(BLOCK, b'\0')
-        out += allraw[fno].tobytes(order='F').ljust(nblk * BLOCK, b'\0')
+        if fno is None:
+            mlist[row + 1] = (b.get('holeid', 0), blk, blk + nblk, 3)
+            sh['scale_factor'] = np.float32(77.0)
+            out += sh.tobytes().ljust(BLOCK, b'\0')
+            out += np.full(V, 12345 + row, dtype='>i2').tobytes().ljust(nblk * BLOCK, b'\0')
+        else:
+            mlist[row + 1] = (16842752 + fno + 1, blk, blk + nblk, 1)
+            sc = np.float32(0.5 * (fno + 1) + 0.015625 * fno * fno)
+            sh['scale_factor'] = sc
+            scales[fno] = float(sc)
+            scale_by_row[row] = float(sc)
+            out += sh.tobytes().ljust(BLOCK, b'\0')
+            out += allraw[fno].tobytes(order='F').ljust(nblk * BLOCK, b'\0')
         blk += 1 + nblk
     out[BLOCK:2 * BLOCK] = mlist.tobytes()
     path = os.path.join(tmpdir(), 'e%d.v' % next_id())
     with open(path, 'wb') as f:
         f.write(out)
-    # independent decode from the bytes: frames in matrix-id order, orientation flips, two multiplications
+    # independent decode from the bytes: VALID entries (id > 0) in matrix-id order, orientation flips, two multiplications
     blob = open(path, 'rb').read()
     ml = np.frombuffer(blob, dtype='>i4', count=128, offset=BLOCK).reshape(32, 4)
-    rows = sorted(range(1, 1 + int(ml[0, 3])), key=lambda r: int(ml[r, 0]))
+    rows = sorted((r for r in range(1, 1 + int(ml[0, 3])) if int(ml[r, 0]) > 0), key=lambda r: int(ml[r, 0]))
+    assert len(rows) == nfr
     shape4 = shape3 + (nfr,)
     full = np.empty(shape4)
     orient = b.get('orient', 1)
@@ -847,7 +1005,8 @@ def build_ecat(b):
             raw = raw[::-1, ::-1, ::-1]
         elif orient in (0, 2, 4, 6):
             raw = raw[:, ::-1, ::-1]
-        sf = struct.unpack('>f', blob[start - BLOCK + 26 * 2 + 0:start - BLOCK + 26 * 2 + 4])[0] if False else scales[fno]
+        sf = float(struct.unpack('>f', blob[start - BLOCK + 26:start - BLOCK + 30])[0])
+        assert sf == scales[fno], (sf, scales[fno])
         full[..., fno] = (raw.astype(np.float64) * float(calib)) * sf
     # element numbers BY FILE ROW (0-based matrix-list row of the frame's volume), scale slot = that row
     qarr = np.empty(shape4, dtype=np.int64)
@@ -857,7 +1016,7 @@ def build_ecat(b):
         qarr[..., fno] = np.arange(V).reshape(shape3, order='F') + V * row_of[fno]
         slotarr[..., fno] = row_of[fno]
     alts = []
-    for r0 in range(nfr):       # the whole image as if every frame had been scaled with the factor stored in row r0
+    for r0 in sorted(scale_by_row):   # the whole image as if every frame had been scaled with the factor stored in row r0
         alt = np.empty(shape4)
         for fno, r in enumerate(rows):
             start = int(ml[r, 1]) * BLOCK
@@ -866,9 +1025,9 @@ def build_ecat(b):
                 raw = raw[::-1, ::-1, ::-1]
             elif orient in (0, 2, 4, 6):
                 raw = raw[:, ::-1, ::-1]
-            alt[..., fno] = (raw.astype(np.float64) * float(calib)) * scales[perm[r0]]
+            alt[..., fno] = (raw.astype(np.float64) * float(calib)) * scale_by_row[r0]
         alts.append((r0, alt))
-    ids = [int(ml[r, 0]) for r in range(1, 1 + nfr)]
+    ids = [int(ml[r, 0]) for r in range(1, 1 + R)] + [0] * b.get('padrows', 0)
 
     def opener(cfg):
         with warnings.catch_warnings():
@@ -1185,6 +1344,19 @@ def model_line(d):
     from nibabel import fileslice as fs
     thr = fs.SKIP_THRESH
     b, op = d['build'], d.get('op', 'get')
+    if op == 'hist':
+        line = model_line(dict(d, op='reshape' if d.get('newshape') else 'get', idx=[]))
+        if line is None or not line.endswith(' -'):
+            return None
+        toks = []
+        for st in d['steps']:
+            if st[0] in ('a', 'ad'):
+                toks.append('a')
+            elif st[0] == 'g':
+                toks.append('g ' + fmt_idx(tuple(item_from_data(i) for i in st[1])))
+            else:
+                toks.append('m %d' % st[1])
+        return 'C03 hist ' + line[len('C03 '):-2] + ' @ ' + ' @ '.join(toks)
     idx = fmt_idx(idx_of(d))
     fmt = b['fmt']
     shp = lambda s: ','.join(map(str, s)) if len(s) else '-'
@@ -1248,6 +1420,13 @@ def case_from_data(d):
         shp = ','.join(map(str, h['shape']))
         line = f'C03 frz F {shp} {h["isz"]} {h["off"]} {_fmt_o(h["slope"])} {_fmt_o(h["inter"])} {ops}'.rstrip()
         return Case(line, d, ('frz', shp, ops), 'frozen')
+    if d.get('op') == 'hist':
+        try:
+            line = model_line(d)
+        except Exception:
+            line = None
+        key = (repr(sorted(d['build'].items())), repr(sorted(d['cfg'].items())), repr(d['steps']), repr(d.get('newshape')))
+        return Case(line, d, key, d.get('stream', 'hist'))
     idx = idx_of(d)
     trivial = all(isinstance(i, slice) and i == slice(None) for i in idx) and d.get('op') != 'arr'
     key = None if trivial else (repr(sorted(d['build'].items())), repr(sorted(d['cfg'].items())), fmt_idx(idx),
@@ -1261,14 +1440,15 @@ def case_from_data(d):
 
 # ---------------------------------------------------------------- implementation side
 
-def canon(bt, res):
+def canon(bt, res, lut=None):
     """print the real result as stored element numbers (+ scale slots) through the value look-up table"""
     res = np.asarray(res)
     order = bt.order
     flat = res.ravel(order=order)
     qs, slots = [], []
+    lut = bt.lut if lut is None else lut
     for key in bits_key(flat):
-        v = bt.lut.get(key)
+        v = lut.get(key)
         if v is None:
             qs.append('?')
             slots.append('?')
@@ -1307,6 +1487,8 @@ def impl(case):
     d = case.data
     if d.get('op') == 'frz':
         return impl_frozen(d)
+    if d.get('op') == 'hist':
+        return impl_hist(case)
     bt = get_built(d['build'])
     if bt.ambiguous:
         raise RuntimeError('builder could not make the value look-up table injective')
@@ -1366,6 +1548,82 @@ def impl(case):
                     case.extra['full_err'] = e
             release(proxy)
     return canon(bt, res)
+
+
+def mutate_in_place(obj, kind):
+    """what a caller does to an array it was handed: edit it in place.  False = cannot be edited (scalar, read-only
+    memory map, empty)"""
+    if not isinstance(obj, np.ndarray) or obj.size == 0 or not obj.flags.writeable:
+        return False
+    with np.errstate(all='ignore'):
+        if kind == 'fill':
+            obj[...] = 99
+        elif kind == 'scale':
+            obj *= 3
+            obj += 1
+        elif obj.dtype.kind in 'iu':
+            np.invert(obj, out=obj)
+        else:
+            obj += 1000.5
+    return True
+
+
+def impl_hist(case):
+    """a HISTORY on one proxy object: conversions (`np.asarray(proxy)`, `np.asarray(proxy, dtype=float64)`), partial
+    reads, in-place edits of arrays earlier reads returned.  Every returned OBJECT is retained together with a copy
+    of what it held when it was returned; at the end (proxy released) the retained objects are compared again."""
+    d = case.data
+    bt = get_built(d['build'])
+    if bt.ambiguous:
+        raise RuntimeError('builder could not make the value look-up table injective')
+    cfg = d['cfg']
+    case.extra = {}
+    objs, snaps, outs, touched = [], [], [], set()
+    with warnings.catch_warnings():
+        warnings.simplefilter('ignore')
+        with IGzipFlag(cfg.get('igzip', True)):
+            proxy = bt.opener(cfg)
+            if d.get('newshape'):
+                proxy = proxy.reshape(tuple(d['newshape']))
+            for st in d['steps']:
+                if st[0] == 'm':
+                    if st[1] < len(objs) and objs[st[1]] is not None:
+                        mutate_in_place(objs[st[1]], st[2])
+                    touched.add(st[1])
+                    continue
+                if cfg.get('repos') is not None and getattr(proxy, 'file_like', None) is not None \
+                        and hasattr(proxy.file_like, 'seek'):
+                    proxy.file_like.seek(cfg['repos'])
+                try:
+                    if st[0] == 'a':
+                        r = np.asarray(proxy)
+                    elif st[0] == 'ad':
+                        r = np.asarray(proxy, dtype=np.float64)
+                    else:
+                        r = proxy[tuple(item_from_data(i) for i in st[1])]
+                except (IndexError, ValueError) as e:
+                    objs.append(None)
+                    snaps.append(None)
+                    outs.append('ERR')
+                    case.extra.setdefault('errs', {})[len(objs) - 1] = e
+                    continue
+                objs.append(r)
+                snap = np.array(r)
+                snaps.append(snap)
+                outs.append(canon(bt, snap, lut64(bt) if st[0] == 'ad' and snap.dtype != bt.full.dtype else None))
+            release(proxy)
+            del proxy
+    flags = []
+    for i, (o, sn) in enumerate(zip(objs, snaps)):
+        if i in touched:
+            flags.append('-')
+        elif o is None:
+            flags.append('k')
+        else:
+            flags.append('k' if same_bits(np.asarray(o), sn) is None else 'c')
+    case.extra['snaps'] = snaps
+    case.extra['flags'] = flags
+    return 'hist ' + ' | '.join(outs) + ' || ' + ''.join(flags)
 
 
 ISZ2DT = {1: np.uint8, 2: np.int16, 4: np.int32, 8: np.float64}
@@ -1451,6 +1709,9 @@ def same_bits(a, b):
 
 
 def describe(d):
+    if d.get('op') == 'hist':
+        return f'{d["build"]["fmt"]} build={d["build"]} cfg={d["cfg"]} steps={d["steps"]}' + \
+            (f' newshape={d["newshape"]}' if d.get('newshape') else '')
     return f'{d["build"]["fmt"]} build={d["build"]} cfg={d["cfg"]} idx={idx_of(d)}' + \
         (f' newshape={d["newshape"]}' if d.get('op') == 'reshape' else '') + \
         (f' pre={idx_of(d, "pre")}' if d.get('pre') is not None else '') + \
@@ -1469,6 +1730,8 @@ def oracle(case, out):
         return None
     if out.startswith('ERR:'):
         return f'proxy read raised {out}: {describe(d)}'
+    if d.get('op') == 'hist':
+        return oracle_hist(case, out)
     bt = get_built(d['build'])
     ex = case.extra or {}
     idx = idx_of(d)
@@ -1517,10 +1780,67 @@ def oracle(case, out):
     return None
 
 
+def oracle_hist(case, out):
+    """the property on EVERY read of the history: a conversion is the independent decode of the file, a partial read
+    is NumPy indexing of that decode (or fails where NumPy fails) — whatever was read or edited before; and no array
+    handed to the caller changes afterwards unless the caller edits it"""
+    d = case.data
+    bt = get_built(d['build'])
+    ex = case.extra or {}
+    full = bt.full
+    if d.get('newshape'):
+        full = full.reshape(list(d['newshape']), order=bt.order)
+    snaps, flags = ex['snaps'], ex['flags']
+    r = 0
+    for n, st in enumerate(d['steps']):
+        if st[0] == 'm':
+            continue
+        if st[0] == 'a':
+            want = full
+        elif st[0] == 'ad':
+            want = full.astype(np.float64)
+        else:
+            try:
+                want = full[tuple(item_from_data(i) for i in st[1])]
+            except IndexError:
+                want = None
+        got = snaps[r]
+        what = {'a': 'np.asarray(proxy)', 'ad': 'np.asarray(proxy, dtype=float64)'}.get(st[0], 'proxy[idx]')
+        if got is None and want is not None:
+            return f'step {n} {what} raised {ex.get("errs", {}).get(r)!r} where the loaded array can be indexed: {describe(d)}'
+        if got is not None and want is None:
+            return f'step {n} proxy[idx] returned a result where NumPy raises IndexError: {describe(d)}'
+        if got is not None:
+            bad = same_bits(got, want)
+            if bad:
+                src = 'the independent decode of the file bytes' if st[0] != 'g' else 'the same index on the decoded array'
+                return f'step {n} {what} differs from {src} (history dependence): {bad}: {describe(d)}'
+        r += 1
+    if 'c' in flags:
+        return f'the array returned by read {flags.index("c")} changed after it was returned although the caller ' \
+               f'never edited it (results share memory): {describe(d)}'
+    return None
+
+
+def drop_step(steps, i):
+    """history without step i (edit targets renumbered)"""
+    if steps[i][0] == 'm':
+        return steps[:i] + steps[i + 1:]
+    r = sum(1 for st in steps[:i] if st[0] != 'm')
+    out = []
+    for j, st in enumerate(steps):
+        if j == i or (st[0] == 'm' and st[1] == r):
+            continue
+        out.append(['m', st[1] - 1, st[2]] if st[0] == 'm' and st[1] > r else st)
+    return out
+
+
 def signature(case, what):
     d = case.data
     if d.get('op') == 'frz':
         return 'frozen-params'
+    if d.get('op') == 'hist':
+        return f'{d["build"]["fmt"]}:hist:' + ('alias' if 'share memory' in what else 'raise' if 'raised' in what else 'value')
     fmt = d['build']['fmt']
     if minc_scalar_region(d):
         return fmt + ':get:scalar-index-multibyte'
@@ -1533,6 +1853,20 @@ def shrink_candidates(case):
     if d.get('op') == 'frz':
         for i in range(len(d['ops'])):
             yield case_from_data(dict(d, ops=d['ops'][:i] + d['ops'][i + 1:]))
+        return
+    if d.get('op') == 'hist':
+        steps = d['steps']
+        for i in reversed(range(len(steps))):
+            if len(steps) > 1:
+                yield case_from_data(dict(d, steps=drop_step(steps, i)))
+        simple = {'mmap': True, 'kfo': False, 'src': 'path', 'igzip': True}
+        if any(d['cfg'].get(k) != v for k, v in simple.items()) or d['cfg'].get('pos') or d['cfg'].get('repos') is not None:
+            yield case_from_data(dict(d, cfg=simple))
+        for i, st in enumerate(steps):
+            if st[0] == 'g' and st[1]:
+                yield case_from_data(dict(d, steps=steps[:i] + [['a']] + steps[i + 1:]))
+            if st[0] == 'ad':
+                yield case_from_data(dict(d, steps=steps[:i] + [['a']] + steps[i + 1:]))
         return
     if d.get('pre') is not None:
         yield case_from_data(dict(d, pre=None))
@@ -1709,8 +2043,19 @@ def gen_ecat(rng, out, nbuilds, nidx, exhaustive):
         perm = list(range(nfr))
         if rng.random() < 0.4:
             rng.shuffle(perm)
-        builds.append({'fmt': 'ecat', 'shape3': rand_shape(rng, 3, 40), 'nframes': nfr, 'perm': perm,
-                       'orient': rng.choice([0, 1, 1, 8]), 'seed': rng.randrange(10 ** 6)})
+        b = {'fmt': 'ecat', 'shape3': rand_shape(rng, 3, 40), 'nframes': nfr, 'perm': perm,
+             'orient': rng.choice([0, 1, 1, 8]), 'seed': rng.randrange(10 ** 6)}
+        if rng.random() < 0.35:
+            # directory entries with an INVALID matrix id (<= 0) anywhere between the valid ones, and/or a matrix-list
+            # array longer than the directory (main header announces more frames than were written: all-zero rows)
+            r = rng.random()
+            if r < 0.7:
+                nh = rng.choice([1, 1, 2])
+                b['holes'] = sorted(rng.sample(range(nfr + nh), nh))
+                b['holeid'] = rng.choice([0, 0, -1, -16842753])
+            if r > 0.5:
+                b['padrows'] = rng.choice([1, 2])
+        builds.append(b)
     for b in builds:
         shape = tuple(b['shape3']) + (b['nframes'],)
         for _ in range(nidx):
@@ -1935,9 +2280,91 @@ def gen_frozen_reads(rng, out, nbuilds, nidx):
                                extra={'ops': ops, 'target': rng.choice(['proxy-hdr', 'proxy-hdr', 'img-hdr'])}))
 
 
+def rand_steps(rng, shape, allow_ad):
+    """a history: reads of all kinds (whole, whole with dtype, partial incl. refused ones) interleaved with in-place
+    edits of arrays EARLIER reads returned; always ends with reads, so that every edit is followed by a read"""
+    steps, nreads = [], 0
+
+    def read():
+        nonlocal nreads
+        r = rng.random()
+        earlier = [st for st in steps if st[0] == 'g']
+        if earlier and r < 0.35:          # the SAME partial read again (after whatever happened in between)
+            steps.append(list(rng.choice(earlier)))
+        elif r < 0.5:
+            steps.append(['a'])
+        elif r < 0.6 and allow_ad:
+            steps.append(['ad'])
+        else:
+            steps.append(['g', [item_to_data(i) for i in rand_index(rng, shape, rng.random() < 0.1)]])
+        nreads += 1
+    r0 = rng.random()
+    if r0 < 0.35:           # convert, post-process the result in place, read again
+        steps.append(['a'] if (rng.random() < 0.8 or not allow_ad) else ['ad'])
+        nreads = 1
+        steps.append(['m', 0, rng.choice(['fill', 'scale', 'inv'])])
+    elif r0 < 0.6:          # partial read (an integer on one axis, slices elsewhere: e.g. one volume), edit it, same read again
+        items = [slice(None)] * len(shape)
+        if shape:
+            ax = rng.choice([len(shape) - 1, len(shape) - 1, rng.randrange(len(shape))])
+            if shape[ax] > 0:
+                items[ax] = rng.randrange(-shape[ax], shape[ax])
+        g = ['g', [item_to_data(i) for i in items]]
+        steps.extend([g, ['m', 0, rng.choice(['fill', 'scale', 'inv'])], list(g)])
+        nreads = 2
+    for _ in range(rng.randrange(1, 5)):
+        if nreads and rng.random() < 0.3:
+            steps.append(['m', rng.randrange(nreads), rng.choice(['fill', 'scale', 'inv'])])
+        else:
+            read()
+    for _ in range(rng.choice([1, 2, 2, 3])):
+        read()
+    return steps
+
+
+def gen_hist(rng, out, k):
+    """histories on ONE proxy object, for every proxy class: the (build, configuration) pairs are those of the other
+    streams (all formats, compressions, mmap modes, keep_file_open, sources, load options, unordered ECAT matrix
+    lists, truncated PAR/REC …), so the state a proxy is in when it is read varies along every dimension they vary"""
+    tmp = []
+    gen_ecat(rng, tmp, 3 * k, 1, exhaustive=False)
+    gen_generic(rng, tmp, 10 * k, 1)
+    gen_afni(rng, tmp, 3 * k, 1)
+    gen_parrec(rng, tmp, 2 * k, 1)
+    gen_parrec_opts(rng, tmp, 2 * k, 1)
+    gen_minc(rng, tmp, 4 * k, 1)
+    seen = set()
+    for c in tmp:
+        d = c.data
+        if d.get('op') not in ('get', 'arr'):
+            continue
+        b, cfg = d['build'], dict(d['cfg'])
+        key = repr(sorted(b.items()))
+        if key in seen:
+            continue
+        seen.add(key)
+        bt = get_built(b)
+        shape = tuple(bt.shape)
+        extra = {}
+        if b['fmt'] in GENERIC and b['fmt'] != 'cifti2' and rng.random() < 0.2:
+            ns = tuple(abs(v) for v in rand_factor_shape(rng, int(np.prod(shape))))
+            extra['newshape'] = list(ns)
+            shape = ns
+        allow_ad = bt.full.dtype == np.float64 or bt.full.dtype.kind in 'iu'
+        for _ in range(2):
+            data = {'op': 'hist', 'build': b, 'cfg': cfg, 'idx': [], 'pre': None, 'steps': rand_steps(rng, shape, allow_ad),
+                    'stream': 'hist:' + ('generic' if b['fmt'] in GENERIC else b['fmt'])}
+            data.update(extra)
+            out.append(case_from_data(data))
+            cfg = dict(cfg)
+            if b['fmt'] in GENERIC or b['fmt'] == 'afni':
+                cfg['kfo'] = not cfg.get('kfo')
+
+
 def cases(rng, tier):
     out = []
     k = {'quick': 4, 'thorough': 100, 'search': 4}[tier]
+    gen_hist(rng, out, {'quick': 10, 'thorough': 60, 'search': 10}[tier])
     gen_ecat(rng, out, 4 * k, 25, exhaustive=True)
     gen_generic(rng, out, 30 * k, 14)
     gen_afni(rng, out, 8 * k, 14)
